@@ -45,6 +45,16 @@ func main() {
 			tier = t
 		}
 		os.Exit(check(os.Args[2], tier))
+	case "doc":
+		var ids []string
+		for id := range rules.All {
+			ids = append(ids, id)
+		}
+		sort.Strings(ids)
+		for _, id := range ids {
+			r := rules.All[id]
+			fmt.Printf("### %s\n\n%s\n\n*Engine:* %s\n\n*Assumptions:* %s\n\n", id, r.Explanation, r.RuleText, strings.Join(r.Assumptions, "; "))
+		}
 	case "explain":
 		if len(os.Args) < 3 {
 			usage()
